@@ -16,6 +16,7 @@
 //
 // lines:  harvest <hex extractor name> <hex fixture path>   ->  pk=<packages> purls=<with purl> issues=<codes|-> bad=<hex details|->
 //
+//	        boundary <hex extractor> <hex fixture> <hex name shape>  ->  hit=<a name of the fixture was substituted> pk= purls= issues= bad= drop=
 //	        layout <hex os-release variant>                   ->  pk= purls= byex=<extractor:count,…> types=<purl types> issues= bad=
 //	        accept <e|c> <hextype> <hex origin>               ->  acc=<0|1 "pkg:<type>/ns/name@1.0" parses> accs=<0|1 String() of a built PackageURL parses> idem=<0|1> why=<-|type|parse>
 //
@@ -429,6 +430,8 @@ func (d *details) add(pk *extractor.Package, code, purlStr string) {
 }
 func (d *details) str() string { return hx.Join(d.d, ",") }
 
+var yields = map[string]bool{} // fixtures that yield at least one package
+
 var emitProto func(protoCase)
 
 // droppedMeta: metadata types of REAL extractor output for which the result proto's metadata oneof stayed unset
@@ -528,6 +531,101 @@ func runHarvest(f fixture, emitIndex func([]purlMeta)) string {
 		emitIndex(ms)
 	}
 	return fmt.Sprintf("pk=%d purls=%d issues=%s bad=%s drop=%s", len(pkgs), purls, issuesStr(is), dt.str(), droppedStr())
+}
+
+// ---------------------------------------------------------------- names at the syntax boundary
+
+// boundaryShapes: names at the boundary of the namespace/name split of the purl types (npm scopes, Maven group:artifact, Go
+// module paths, separators only, empty after trimming). They are put INTO THE FILE the real extractor reads, by substituting
+// the name of a package the fixture is known to yield, so the whole chain Extract -> ToPURL -> String -> FromString -> index ->
+// proto -> CycloneDX -> SPDX runs on what the extractor makes of them.
+var boundaryShapes = []string{"@types", "@scope/", "@/x", "/x", "x/", "a/b/c", "@", "/", "//", ":artifact", "group:", ":", "example.com/mod/", " ", ".", "..", "@a/b/c", "a:b:c"}
+
+// runBoundary substitutes `shape` for a package name of the fixture (the first candidate that occurs verbatim in the file:
+// the name itself, or its last ':' / '/' component) and pushes whatever the extractor then emits through the conversions.
+func runBoundary(f fixture, shape string) string {
+	is := issues{}
+	dt := &details{}
+	hit, npk, purls := false, 0, 0
+	func() {
+		defer func() {
+			if r := recover(); r != nil {
+				is.add("extract-panic")
+			}
+		}()
+		p := filepath.Join(f.dir, f.rel)
+		data, err := os.ReadFile(p)
+		if err != nil {
+			return
+		}
+		extract := func(path string) []*extractor.Package {
+			info, err := os.Stat(path)
+			if err != nil {
+				return nil
+			}
+			fh, err := os.Open(path)
+			if err != nil {
+				return nil
+			}
+			defer fh.Close()
+			ctx, cancel := context.WithTimeout(context.Background(), 10*time.Second)
+			defer cancel()
+			rel, _ := filepath.Rel(f.dir, path)
+			inv, _ := f.ex.Extract(ctx, &filesystem.ScanInput{FS: scalibrfs.DirFS(f.dir), Path: filepath.ToSlash(rel), Root: f.dir, Info: info, Reader: fh})
+			return inv.Packages
+		}
+		orig := extract(p)
+		var cand []string
+		for _, pk := range orig {
+			if pk == nil || pk.Name == "" {
+				continue
+			}
+			cand = append(cand, pk.Name)
+			for _, sep := range []string{":", "/"} {
+				if i := strings.LastIndex(pk.Name, sep); i >= 0 && i+1 < len(pk.Name) {
+					cand = append(cand, pk.Name[i+1:])
+				}
+			}
+			if len(cand) > 12 {
+				break
+			}
+		}
+		old := ""
+		for _, c := range cand {
+			if len(c) >= 2 && strings.Contains(string(data), c) {
+				old = c
+				break
+			}
+		}
+		if old == "" {
+			return
+		}
+		hit = true
+		// same base name (several extractors dispatch on it): work in a scratch sibling directory
+		dir := filepath.Join(filepath.Dir(p), "_boundary") // fixed name: locations end up in replies
+		if err := os.MkdirAll(dir, 0o755); err != nil {
+			return
+		}
+		defer os.RemoveAll(dir)
+		mp := filepath.Join(dir, filepath.Base(p))
+		if err := os.WriteFile(mp, []byte(strings.ReplaceAll(string(data), old, shape)), 0o644); err != nil {
+			return
+		}
+		pkgs := extract(mp)
+		for i, pk := range pkgs {
+			if pk == nil {
+				is.add("nil-package")
+				return
+			}
+			pk.Extractor = f.ex
+			if i%2 == 0 {
+				pk.LayerDetails = &extractor.LayerDetails{Index: i, DiffID: "sha256:abc", Command: "RUN x", InBaseImage: true}
+			}
+		}
+		npk = len(pkgs)
+		purls = convert(f.ex, pkgs, "", is, dt.add)
+	}()
+	return fmt.Sprintf("hit=%s pk=%d purls=%d issues=%s bad=%s drop=%s", hx.B(hit), npk, purls, issuesStr(is), dt.str(), droppedStr())
 }
 
 // ---------------------------------------------------------------- production layout
@@ -863,6 +961,13 @@ func main() {
 				out.Emit(l, runHarvest(f, nil))
 			case "layout":
 				out.Emit(l, runLayout(scratch, hx.UnHex(t[1])))
+			case "boundary":
+				f, ok := byKey[hx.UnHex(t[1])+"\x00"+hx.UnHex(t[2])]
+				if !ok || len(t) != 4 {
+					out.Emit(l, "hit=0 pk=0 purls=0 issues=fixture-missing bad=- drop=-")
+					continue
+				}
+				out.Emit(l, runBoundary(f, hx.UnHex(t[3])))
 			case "accept":
 				out.Emit(l, runAccept(hx.UnHex(t[2])))
 			default:
@@ -904,12 +1009,28 @@ func main() {
 	for _, f := range fx {
 		var idx [][]purlMeta
 		l := "harvest " + hx.Hex(f.ex.Name()) + " " + hx.Hex(f.rel)
-		out.Emit(l, runHarvest(f, func(ms []purlMeta) { idx = append(idx, ms) }))
+		hr := runHarvest(f, func(ms []purlMeta) { idx = append(idx, ms) })
+		if !strings.HasPrefix(hr, "pk=0 ") {
+			yields[f.ex.Name()+"\x00"+f.rel] = true
+		}
+		out.Emit(l, hr)
 		for _, ms := range idx {
 			out.Emit("index "+pkgsStr(ms), runIndex(ms))
 		}
 	}
 	emitProto = nil
+	// names at the syntax boundary, substituted into up to 3 package-yielding fixtures of every extractor
+	perEx := map[string]int{}
+	for _, f := range fx {
+		if !yields[f.ex.Name()+"\x00"+f.rel] || perEx[f.ex.Name()] >= 3 {
+			continue
+		}
+		perEx[f.ex.Name()]++
+		for _, sh := range boundaryShapes {
+			l := "boundary " + hx.Hex(f.ex.Name()) + " " + hx.Hex(f.rel) + " " + hx.Hex(sh)
+			out.Emit(l, runBoundary(f, sh))
+		}
+	}
 	seen := map[string]bool{}
 	for _, c := range protoCases {
 		if l := c.line(); !seen[l] {
